@@ -154,7 +154,7 @@ def c10(ctx):
                 if pl is not None and not pl["p"] and has_hash_iter(fn.local_ty(pl["l"])):
                     if any(isinstance(e, dict) and "f" in e and e.get("of") not in ("tuple", "closure", "other") for e in s["pl"]["p"]):
                         rep.fail("C10.R1", "stored::%s" % fn.path, "a hash-table iterator is stored into a data structure field; its consumers cannot be tracked", fn.loc(s["line"]))
-    rep.floor("C10.R1", n_carriers, 2, "hash-iteration sources")
+    rep.floor("C10.R1", n_carriers, 1, "hash-iteration sources")
     rep.notes["hash_iteration_sources"] = n_carriers
     rep.notes["hash_iteration_consumers"] = n_consumers
 
@@ -221,7 +221,7 @@ def c10(ctx):
                     rep.ob("C10.R3", key, True, "", fn.loc(t["line"]), how="reviewed: " + REVIEWED_UNSTABLE[key])
                 else:
                     rep.fail("C10.R3", key, "%s sorts with %s: elements with equal keys keep an unspecified (here: hash-dependent or input-dependent) order" % (fn.path, d), fn.loc(t["line"]))
-    rep.floor("C10.R3", n_sorts, 2, "sort calls")
+    rep.floor("C10.R3", n_sorts, 1, "sort calls")
     pp = F.find_fn("linter::postprocess")
     if pp is None:
         rep.fail("C10.R3", "anchor::postprocess", "linter::postprocess not found")
